@@ -156,7 +156,7 @@ def extra_evidence(results):
 # generation
 OPS_W = [("set", 24), ("get", 12), ("getd", 8), ("del", 8), ("pop", 5), ("popd", 5), ("popitem", 5),
          ("clear", 2), ("setdefault", 8), ("update", 7), ("ior", 3), ("eq", 3), ("eqself", 1), ("copy", 5),
-         ("len", 7), ("in", 8)]
+         ("len", 7), ("in", 8), ("or", 2), ("ror", 2), ("repr", 2)]
 
 
 def _gen_op(rng, nkeys, vctr):
@@ -174,7 +174,7 @@ def _gen_op(rng, nkeys, vctr):
         return [name, k]
     if name in ("getd", "popd", "setdefault"):
         return [name, k, v()]
-    if name in ("popitem", "clear", "eqself", "copy", "len"):
+    if name in ("popitem", "clear", "eqself", "copy", "len", "or", "ror", "repr"):
         return [name]
     if name in ("update", "ior"):
         ks = [rng.randrange(nkeys) for _ in range(rng.randint(0, 3))]
@@ -230,7 +230,8 @@ def _sys_scheds(a, b):
 
 GRID_OPS = [["set", 0, 7], ["set", 2, 7], ["get", 0], ["get", 2], ["getd", 2, 9], ["del", 0], ["pop", 0], ["popd", 2, 5],
             ["popitem"], ["clear"], ["setdefault", 2, 9], ["setdefault", 0, 9], ["update", [[2, 7]], "list"],
-            ["ior", [[2, 7]], "dict"], ["eq", [[0, 1], [1, 2]]], ["copy"], ["len"], ["in", 0], ["in", 2]]
+            ["ior", [[2, 7]], "dict"], ["eq", [[0, 1], [1, 2]]], ["copy"], ["len"], ["in", 0], ["in", 2],
+            ["or"], ["ror"], ["repr"]]
 
 
 def _grid_case(rng, cap):
@@ -255,7 +256,7 @@ def _race_case(rng):
         v = 10 + 3 * i + rng.randrange(3)
         return rng.choice([["setdefault", k, v], ["setdefault", k, v], ["set", k, v], ["get", k], ["getd", k, v],
                            ["del", k], ["pop", k], ["popd", k, v], ["update", [[k, v]], "list"], ["ior", [[k, v]], "dict"],
-                           ["in", k], ["popitem"], ["len"], ["copy"]])
+                           ["in", k], ["popitem"], ["len"], ["copy"], ["or"], ["repr"]])
     ta = [one(0)] + ([one(1)] if rng.random() < 0.3 else [])
     tb = [one(2)] + ([one(3)] if rng.random() < 0.5 else [])
     a = rng.randrange(2)
@@ -405,6 +406,21 @@ def _do_op(cache, op, miss_default=None):
         return ["bool", 1 if r is True else 0] if isinstance(r, bool) else ["bad"]
     if name == "copy":
         return ["copy", cache.copy()]
+    if name in ("or", "ror", "repr"):
+        # all items at one instant, through the three reading methods that return them as a value
+        if name == "or":
+            d = cache | {}
+        elif name == "ror":
+            d = {} | cache
+        else:
+            txt = repr(cache)
+            head = "%s(max_size=%r, on_miss=" % (type(cache).__name__, cache.max_size)
+            if not (txt.startswith(head) and txt.endswith(")") and ", values=" in txt):
+                return ["bad"]
+            d = eval(txt[txt.index(", values=") + len(", values="):-1], {"__builtins__": {}, "frozenset": frozenset})
+        if type(d) is not dict:
+            return ["bad"]
+        return ["items", sorted([ktok(k), vtok(v)] for k, v in d.items())]
     if name == "len":
         return ["nat", len(cache)]
     if name == "in":
@@ -617,6 +633,8 @@ def _op_coq(op):
         return "EqSelf"
     if n == "copy":
         return "Copy"
+    if n in ("or", "ror", "repr"):
+        return "Snapshot %s" % {"or": "SOr", "ror": "SRor", "repr": "SRepr"}[n]
     if n == "len":
         return "Len"
     if n == "in":
